@@ -50,6 +50,33 @@ CHECKS = {
     "C11": dict(engine="S", technique="stateful property-based testing (rapid): acceptance oracle at every delivery of honest traffic in adversarial executions",
         level="Whenever a correct node's message reaches a correct peer in a state matching the statement's precondition, the accepting effect must occur; adversary strategies that contaminate logs (outsider/Byzantine PREPARE/COMMIT/VIEW_CHANGE variants, re-wraps) are emphasised. The clone-by-replay variant of the design (judging at emission against every peer) is not built; acceptance is judged when the schedule delivers.",
         note=SIM_NOTE),
+    "C02": dict(engine="P+F", technique="property-based testing (rapid) + native coverage-guided fuzzing, differential against an independent reference validator",
+        level="Genuine certificates cut exactly at the quorum / f thresholds, then field mutations and byte surgery; one-directional oracle as the property states (accept => reference-valid), panics are violations; accept rate on reference-valid proofs is measured (anti-vacuity).",
+        note="Trusts the HMAC key registry, the big-integer quorum reference and the seed derivation re-implemented in /verif/ref. Byte-level readers (membuffers) are shared with the implementation."),
+    "C12": dict(engine="N+R+F", technique="property-based testing (rapid) + native fuzzing of hostile bytes and extreme field values; post-condition 'node still commits' on a real node in process and on the real runtime",
+        level="No-crash / no-wedge / no-disable is checked in process (main-loop step and worker step under recover, then a scripted round, an election) and on the real two-goroutine runtime (supervisor log scanned for recovered panics, follow-up round must commit, quiescence-judged).",
+        note="In-process layer uses the verif-tagged step functions that mirror the loop bodies; the runtime layer uses NewLeanHelix+Run unmodified."),
+    "C13": dict(engine="R+S", technique="stateful property-based testing (rapid) on the real two-goroutine runtime with gated SPIs; invariants over the observed history; plus the deterministic simulator",
+        level="History invariants that hold under every interleaving (so scheduler nondeterminism cannot produce a false alarm), checked on generated runs in which syncs and elections land while the worker is held inside SPI calls and commit callbacks fail.",
+        note="The harness controls SPI boundaries, not the Go scheduler: interleavings strictly inside the library are sampled (thorough also builds with -race)."),
+    "C14": dict(engine="R", technique="stateful property-based testing (rapid) on the real runtime; quiescence detection (goroutine stack snapshots) instead of timeouts",
+        level="'Eventually above the synced height' is judged at quiescence: both loops parked in their own select in two stack snapshots means nothing will ever change, so a missing effect is a real violation; a deadline hit is inconclusive, never a violation.",
+        note="Trusts the quiescence detector in /verif/rt (parses runtime.Stack output)."),
+    "C15": dict(engine="P+R+S", technique="bounded exhaustive enumeration + random sequences against a reference registry model; stateful property-based testing of blocking SPI calls on the real runtime",
+        level="(a) complete enumeration of short op sequences over a small position alphabet and long random ones against an executable specification; (b) generated interleavings of context-blocked SPI calls with elections, syncs and shutdown, judged on the recorded history.",
+        note="Interpretation: 'superseded' = by the events the statement lists (trigger, sync, shutdown), i.e. the registry watermark. Election triggers are generated only for the current or older positions (the node's own timer cannot produce a future one)."),
+    "C16": dict(engine="R", technique="stateful property-based testing (rapid): cancellation injected at generated points of runs on the real runtime, with the real timer-based trigger as well",
+        level="Shutdown completeness on generated runs: bounded WaitUntilShutdown, silence afterwards, goroutine diff, prompt return of API calls with a cancelled context.",
+        note="Crash points are op boundaries plus whatever the scheduler adds; not every instruction-level point."),
+    "C17": dict(engine="P", technique="bounded exhaustive enumeration + property-based testing (rapid) against a reference future-cache model, including re-entrant advance",
+        level="All short sequences over a 12-letter alphabet and long random sequences on the real filter with a real State; the re-entrant case (commit during a drain) is generated explicitly.",
+        note="Interpretation of 'provided no message for a height above H had been received before it': before the start of H (the weaker obligation, consistent with the one-height bound)."),
+    "C19": dict(engine="P+R", technique="property-based testing (rapid): exact/saturating formula oracle; history oracle over real-timer runs",
+        level="(a) exact integer reference for the formula over the full view range; (b) counting and lower-bound rules over histories of the real trigger and of a full node on the real timer; liveness misses count only when repeated three times.",
+        note="(b) depends on the OS timer and the Go scheduler: only the lower bound and the counting rules are exact."),
+    "C20": dict(engine="P+F", technique="property-based testing (rapid) + native fuzzing: round-trip and signature re-verification oracle",
+        level="Every message the factory can build over the full field ranges is round-tripped; signatures are re-verified over the re-read bytes including nested votes and proofs.",
+        note="Trusts the HMAC key registry; messages are built only through messagesfactory."),
     "C18": dict(engine="P", technique="property-based testing (rapid) + dense enumeration of the leader function against view mod n in uint64",
         level="Leader function tabulated through a verif-tagged accessor over dense small views, all power-of-two neighbourhoods, 2^63 and 2^64-1 neighbourhoods and random 64-bit views for n=4..64, including round-robin windows.",
         note="Trusts the accessor VerifLeaderOf (one-line wrapper around the package-private function). Behavioural cross-check (leader acceptance on a real node at views >= 2^63) is part of C12/C08 engine N."),
